@@ -1,5 +1,5 @@
 from .. import facts
-from ..rules import geometry, region, image, tables
+from ..rules import geometry, region, image, tables, gradient
 
 
 def run(ck):
@@ -16,3 +16,4 @@ def run(ck):
     region.r5_5_copy_sets_count(ck, P)
     image.r_hook_refreshes_unconditionally(ck, P, 'C14-R8')
     image.r_validate_clears_dirty(ck, P, 'C14-R9')
+    gradient.r4_sentinel_contents(ck, P)  # C13-R4: the hook re-derives the sentinel stops from the current repeat mode and stops
